@@ -95,6 +95,8 @@ package raft
 //@   ensures result1 != nil ==> result0 == nil
 //@   ensures [C10.recover-contiguous] result1 == nil ==> result0 != nil && result0.snaps != nil && result0.log != nil && result0.snaps.index <= result0.log.glast && result0.log.glast == result0.lastLogIndex && result0.snaps.index <= result0.lastLogIndex
 //@   ensures [C10.recover-prev] result1 == nil && result0.snaps.index != 0 ==> result0.log.gprev <= result0.snaps.index
+// entries that were durable are still there after a restart: the log is reset only when it ends below the newest snapshot (D9)
+//@   ensures [C10+C03.restart-keeps-durable-log] result1 == nil && result0.snaps.index <= dlogLast(pjoin(dir, "log")) ==> result0.lastLogIndex == dlogLast(pjoin(dir, "log")) && result0.log.gprev == dlogPrev(pjoin(dir, "log"))
 // C12/C19: after a restart the membership is the newest configuration entry of the log suffix, else the
 // one in the snapshot label; the committed one is the entry before it, else the label's
 //@   ensures [C12+C19+C08.restart-latest-from-log] result1 == nil && result0.configs.Latest.Index > result0.snaps.index ==> result0.configs.Latest.Index <= result0.lastLogIndex && result0.gtyp[result0.configs.Latest.Index] == entryConfig && NoCfgIn(result0, result0.configs.Latest.Index, result0.lastLogIndex)
